@@ -40,7 +40,7 @@ def shards(tier, seed):
 
 def universe(seed, uid):
     rng = core.rng_for(seed, PROP, 'uni%d' % uid)
-    return gen.rand_universe(rng, gen.Opts(attrs=False, text_alphabet='any', nested_arrays=0.15, sub_names=True, digits=True, self_refs=True, null_items=True), uid=uid)
+    return gen.rand_universe(rng, gen.Opts(attrs=False, text_alphabet='any', nested_arrays=0.15, sub_names=True, digits=True, self_refs=True, null_items=True, bare_prims=True), uid=uid)
 
 
 def make_protocols(conf, validator):
